@@ -61,6 +61,10 @@ type zzCfg struct {
 	feePerKw  chainfee.SatPerKWeight
 	reserve   btcutil.Amount
 	smallCap  bool
+	// ackInterval: the switch's settle/fail ack ticker (15 s by default); a
+	// short interval makes "acked on disk before the incoming link signed"
+	// reachable without a long quiet period.
+	ackInterval time.Duration
 }
 
 type zzPay struct {
@@ -215,6 +219,8 @@ func zzDrawCfg(r *simcore.Run) zzCfg {
 	} else {
 		c.reserve = btcutil.Amount([]int{0, 10000}[t.CfgDraw(2)])
 	}
+	// (last draw: older replay files end before it and get the default)
+	c.ackInterval = []time.Duration{DefaultAckInterval, 20 * time.Millisecond, DefaultAckInterval, time.Second}[t.CfgDraw(4)]
 	return c
 }
 
